@@ -35,7 +35,7 @@ def innerOf (cx : Codecs) (c : Nat) (value : Bytes) : Except ORes Bytes :=
     match validateStream value with
     | .error e => .error (.err e)
     | .ok s =>
-      match snappyChunks cx.unsnap (s.length + 1) s [] with
+      match snappyChunks (uncompressTo cx) (s.length + 1) s [] with
       | .err => .error (.err .io)
       | .panic => .error (.panic "snappy.rs:167 split_at")
       | .ok v => .ok v
